@@ -145,8 +145,21 @@ def check_filter(ssj, base, fspec, req, view, rec, case, apis=('tables', 'pair',
 
     if 'tables' in apis:
         call = dict(base, api='filter_tables', filter=fspec)
+        targs = objs
+        if (len(view.lkeys) + len(repr(fspec))) % 2 == 0 and 'zz_x' not in base['ltable']['cols']:
+            # request an output attribute that is missing in every other row: a row with a present
+            # filter value must survive whatever its other columns hold
+            def with_x(spec):
+                n = T.spec_len(spec)
+                sp = {'cols': list(spec['cols']) + ['zz_x'], 'index': spec.get('index'),
+                      'data': dict(spec['data'], zz_x=[None if i % 2 else 'x%d' % i for i in range(n)]),
+                      'dtypes': dict(spec.get('dtypes', {}), zz_x='object')}
+                return sp
+            call = dict(call, ltable=with_x(base['ltable']), rtable=with_x(base['rtable']),
+                        l_out_attrs=['zz_x'], r_out_attrs=['zz_x'])
+            targs = {'tok': tok, 'filter': flt}
         try:
-            df = T.exec_call(ssj, call, objs)
+            df = T.exec_call(ssj, call, targs)
             got = set((i, j) for (i, j, s, lk, rk) in oracle.result_pairs(df, call, view))
             rec.count('filter_tables_calls')
             rec.count('filter_tables_rows', len(df))
@@ -188,6 +201,8 @@ def check_filter(ssj, base, fspec, req, view, rec, case, apis=('tables', 'pair',
                           [[n, lkeys[i], rkeys[j]] for n, (i, j) in enumerate(pairs_cs)])
         # candidate sets produced by filter_tables(n_jobs>1) / allow_missing=True carry repeated
         # index labels (pd.concat of per-job results): use such an index in part of the cases
+        if all(isinstance(k, int) and not isinstance(k, bool) and k >= 0 for k in list(lkeys) + list(rkeys)):
+            cs['dtypes'] = {'r_' + rk: 'uint64'}          # same ids, another integer dtype than the left key
         style = (len(pairs) + len(repr(fspec))) % 3
         if style == 1:
             cs['index'] = [n % 5 for n in range(len(pairs_cs))]
